@@ -214,6 +214,21 @@ def getters_unit(u, res):
         a = getattr(at, name); ref = np.array(a).copy()
         a += 1
         facts.append((name, np.array_equal(np.array(getattr(at, name)), ref)))
+    # the unit cell handed to the constructor stays the caller's: setting masses through the API (on the object or on a copy of it)
+    # must not rewrite it, and the original must not see what is done to a copy
+    lat, pos, symb = np.array(ph.unitcell.cell), np.array(ph.unitcell.scaled_positions), list(ph.unitcell.symbols)
+    from phonopy.structure.atoms import PhonopyAtoms
+    import phonopy
+    mine = PhonopyAtoms(symbols=symb, cell=lat, scaled_positions=pos)
+    m0 = np.array(mine.masses).copy()
+    p1 = phonopy.Phonopy(mine, supercell_matrix=geometries.SUPERCELLS[SID], primitive_matrix=np.eye(3))
+    p1.masses = np.array(p1.primitive.masses) * 2.0
+    facts.append(("caller's unit cell after Phonopy.masses =", np.array_equal(np.array(mine.masses), m0)))
+    p2 = phonopy.Phonopy(mine, supercell_matrix=geometries.SUPERCELLS[SID], primitive_matrix=np.eye(3))
+    cp = p2.copy()
+    before = np.array(p2.unitcell.masses).copy()
+    cp.masses = np.array(cp.primitive.masses) * 3.0
+    facts.append(("original's unit cell after masses were set on its copy()", np.array_equal(np.array(p2.unitcell.masses), before) and np.array_equal(np.array(mine.masses), m0)))
     ph.generate_displacements(distance=0.03)
     ds = ph.dataset
     ds["first_atoms"][0]["displacement"][0] += 1.0
